@@ -808,3 +808,9 @@ M("c04-sweep-only-earlier-endpoints", "C04", "cola/libavoid/visibility.cpp",
   "                else if (inf->id.objID == centerID.objID)\n", "                else if ((inf->id.objID == centerID.objID) && (inf->id.vn < centerID.vn))\n", mention=["SWEEP-CANDIDATES"])
 M("c04-neutral-angle-args-swapped-sign", "C04", "cola/libavoid/makepath.cpp",
   "    return fabs(atan2(CrossLength(v1, v2), Dot(v1, v2)));", "    return fabs(atan2(-CrossLength(v1, v2), Dot(v1, v2)));", expect="silent")
+M("c15-queued-end-on-deleted-shape", "C15", "cola/libavoid/router.cpp",
+  "                    if (upd->second.m_anchor_obj == obstacle)\n                    {\n                        upd->second = ConnEnd(obstacle->position());\n                    }",
+  "                    (void) upd;", mention=["QUEUED-ENDS-DETACHED"])
+M("c15-queued-end-only-first-update", "C15", "cola/libavoid/router.cpp",
+  "                    if (upd->second.m_anchor_obj == obstacle)\n                    {\n                        upd->second = ConnEnd(obstacle->position());\n                    }",
+  "                    if ((upd == act->conns.begin()) && (upd->second.m_anchor_obj == obstacle))\n                    {\n                        upd->second = ConnEnd(obstacle->position());\n                    }", mention=["QUEUED-ENDS-DETACHED"])
